@@ -1323,7 +1323,7 @@ struct Fill
         Op o;
         o.k      = OpK::Insert;
         o.n      = 1;
-        o.key[0] = (int8_t)k;
+        o.key[0] = (int16_t)k;
         o.wid[0] = w;
         o.ttl[0] = 100;
         return o;
@@ -1333,7 +1333,7 @@ struct Fill
         Op o;
         o.k      = kk;
         o.n      = 1;
-        o.key[0] = (int8_t)k;
+        o.key[0] = (int16_t)k;
         o.peek   = 1;
         return o;
     }
@@ -1468,6 +1468,285 @@ struct Fill
         runs++;
     }
 
+    // ---------------------------------------------------------------------------------------
+    // "mass" scripts: one scenario per size N in which MANY entries share a fate (a deadline, an
+    // idle period, one range call) - for the mechanisms whose work per call grows with the number of
+    // entries (purge loops, aging loops, range loops) and could be (wrongly) bounded or batched.
+    // The clock starts off the millisecond grid so that rounding of instants shows as well.
+    // ---------------------------------------------------------------------------------------
+    int  mass_id{0}, mass_n{0};
+    void mbad(int prop, const std::string& clause)
+    {
+        if (viols.size() >= 10 || prop != a.prop)
+            return;
+        char pb[8];
+        snprintf(pb, sizeof pb, "C%02d", prop);
+        VRec v;
+        v.props  = pb;
+        v.clause = "mass script " + std::to_string(mass_id) + " with " + std::to_string(mass_n) + " entries: " + clause;
+        Args ra  = a;
+        ra.cfg   = cfg;
+        g_replay_engine = "seqmc-mass";
+        std::vector<Op> tag;
+        Op              t;
+        t.k      = OpK::Advance; // carrier line: dt = script id, wid[0] = N (the replay re-runs the script)
+        t.dt     = mass_id;
+        t.wid[0] = mass_n;
+        tag.push_back(t);
+        v.replay = write_replay(ra, tag, pb, v.clause);
+        g_replay_engine = "seqmc-fill";
+        std::string hs;
+        for (size_t i = 0; i < hist.size() && i < 8; i++)
+            hs += (i ? "; " : "") + op_str(hist[i]);
+        v.hist = hs + (hist.size() > 8 ? "; ... (" + std::to_string(hist.size()) + " calls)" : "");
+        viols.push_back(v);
+    }
+    Op spanop(OpK k, int n, int widbase, int allow = 3, int peek = 1)
+    {
+        Op o;
+        o.k      = k;
+        o.span   = (int16_t)n;
+        o.n      = 0;
+        o.allow  = allow;
+        o.peek   = peek;
+        o.wid[0] = widbase;
+        o.ttl[0] = 5;
+        return o;
+    }
+    Op adv(int64_t dt)
+    {
+        Op o;
+        o.k  = OpK::Advance;
+        o.dt = dt;
+        return o;
+    }
+    Op simple(OpK k)
+    {
+        Op o;
+        o.k = k;
+        return o;
+    }
+    int count_found(AD& ad, int N, bool check_wid, int widbase, int prop_for_wid)
+    {
+        int found = 0;
+        for (int k = 1; k <= N; k++)
+        {
+            Result r = ad.apply(mk1(OpK::Find, k));
+            if (r.v[0])
+            {
+                found++;
+                if (check_wid && !T.is_set && r.v[1] != (g_val_eq_mode ? k : widbase + k - 1))
+                    mbad(prop_for_wid, "key " + std::to_string(k) + " returns write " + std::to_string(r.v[1]) + ", expected " + std::to_string(widbase + k - 1));
+            }
+        }
+        return found;
+    }
+    void mass_script(int id, int N)
+    {
+        mass_id = id;
+        mass_n  = N;
+        hist.clear();
+        cfg.cap     = N;
+        cfg.nkeys   = 3;
+        cfg.lf      = 1.0f;
+        cfg.hash    = 0;
+        cfg.ttl_ms  = 5;
+        cfg.tick_ms = 5;
+        cfg.ratio   = 0.5f;
+        g_hash_mode = 0;
+        g_cur_cfg   = &cfg;
+        g_now_ns    = BASE_NS + 250000; // 250 us off the millisecond grid
+        const int64_t t0c      = g_now_ns;
+        const int64_t deadline = t0c + 5 * MS;
+        ValStats      before   = g_vs;
+        {
+            AD ad(cfg);
+            if (id == 0)
+            {
+                // one long range of every form
+                Result r = ap(ad, spanop(OpK::InsertRange, N, 1000));
+                if (r.v[0] != N)
+                    mbad(18, "insert_range of " + std::to_string(N) + " new keys reported " + std::to_string(r.v[0]));
+                int f = count_found(ad, N, true, 1000, 1);
+                if (f != N)
+                    mbad(3, std::to_string(f) + " of " + std::to_string(N) + " keys are found after one insert_range into an empty container of that capacity");
+                if (ad.observe().size != N)
+                    mbad(2, "size() is " + std::to_string(ad.observe().size) + " after inserting " + std::to_string(N) + " keys");
+                for (OpK fk : {OpK::FindRange, OpK::FindRangeFill})
+                {
+                    Result q = ap(ad, spanop(fk, N, 0));
+                    if (q.v[0] != N || q.v[1] != N || q.v[2] != 1)
+                        mbad(18, std::string(opk_name(fk)) + " over the " + std::to_string(N) + " resident keys returned " + q.str() + " (results, found, in order, checksum)");
+                }
+                Result u = ap(ad, spanop(OpK::InsertRange, N, 5000, 2));
+                if (u.v[0] != N)
+                    mbad(9, "update-only insert_range over " + std::to_string(N) + " live keys reported " + std::to_string(u.v[0]));
+                count_found(ad, N, true, 5000, 1);
+                Result e = ap(ad, spanop(OpK::EraseRange, N, 0));
+                if (e.v[0] != N)
+                    mbad(18, "erase_range over " + std::to_string(N) + " resident keys reported " + std::to_string(e.v[0]));
+                if (ad.observe().size != 0 || count_found(ad, N, false, 0, 1) != 0)
+                    mbad(1, "keys are still found / size() != 0 after erasing every key");
+            }
+            else if (id == 1 && (T.ttl_cache || T.ttl_map))
+            {
+                // N entries with one deadline: nothing early, everything at the deadline, clean counts them all
+                for (int k = 1; k <= N; k++)
+                {
+                    Op o     = mkins(k, 2000 + k - 1);
+                    o.ttl[0] = 5;
+                    ap(ad, o);
+                }
+                ap(ad, adv(deadline - g_now_ns - 1));
+                int f = count_found(ad, N, true, 2000, 1);
+                if (f != N)
+                    mbad(5, "1 ns before the common deadline only " + std::to_string(f) + " of " + std::to_string(N) + " keys are found");
+                ap(ad, adv(1));
+                if (T.ttl_cache)
+                {
+                    Result c = ap(ad, simple(OpK::Clean));
+                    if (c.v[0] != N || ad.observe().size != 0)
+                        mbad(17, "clean_expired_values() at the common deadline returned " + std::to_string(c.v[0]) + " and left size() " + std::to_string(ad.observe().size));
+                }
+                else
+                {
+                    Result q = ad.apply(mk1(OpK::Find, N));
+                    if (q.v[0])
+                        mbad(4, "the last written key is served at its deadline (" + std::to_string(N) + " entries expired together)");
+                    if (ad.observe().size != 0)
+                        mbad(2, "size() is " + std::to_string(ad.observe().size) + " right after a lookup although every entry has expired");
+                    Result c = ap(ad, simple(OpK::Clean));
+                    if (c.v[0] != 0)
+                        mbad(17, "clean_expired_values() found " + std::to_string(c.v[0]) + " entries left after a lookup that should have purged them all");
+                }
+            }
+            else if (id == 2 && (T.ttl_cache || T.ttl_map))
+            {
+                // lookups at the deadline without any clean first; then one insert
+                for (int k = 1; k <= N; k++)
+                {
+                    Op o     = mkins(k, 3000 + k - 1);
+                    o.ttl[0] = 5;
+                    ap(ad, o);
+                }
+                ap(ad, adv(deadline - g_now_ns));
+                Result q = ap(ad, spanop(OpK::FindRange, N, 0));
+                if (q.v[1] != 0)
+                    mbad(4, "find_range at the common deadline still returns " + std::to_string(q.v[1]) + " of " + std::to_string(N) + " keys");
+                int f = count_found(ad, N, false, 0, 1);
+                if (f != 0)
+                    mbad(4, std::to_string(f) + " keys are served at their deadline");
+            }
+            else if (id == 3 && T.ttl_map)
+            {
+                // a single insert after everything expired must purge the whole backlog
+                Result r = ap(ad, spanop(OpK::InsertRange, N, 4000));
+                (void)r;
+                ap(ad, adv(deadline - g_now_ns));
+                Op o     = mkins(N + 1, 4999);
+                o.ttl[0] = 5;
+                ap(ad, o);
+                if (ad.observe().size != 1)
+                    mbad(2, "size() is " + std::to_string(ad.observe().size) + " right after an insert although only the new key is live (" + std::to_string(N) + " entries had expired)");
+                Result c = ap(ad, simple(OpK::Clean));
+                if (c.v[0] != 0)
+                    mbad(17, "the insert left " + std::to_string(c.v[0]) + " expired entries for clean_expired_values()");
+            }
+            else if (id == 4 && ck == CK::lfuda)
+            {
+                // N entries idle longer than the tick: one aging point ages them all
+                for (int k = 1; k <= N; k++)
+                    ap(ad, mkins(k, 6000 + k - 1));
+                for (int k = 1; k <= N; k++)
+                {
+                    Op f   = mk1(OpK::Find, k);
+                    f.peek = 0;
+                    ap(ad, f);
+                }
+                ap(ad, adv(5 * MS + 1));
+                Result d = ap(ad, simple(OpK::DynAge));
+                if (d.v[0] != N)
+                    mbad(14, "dynamically_age() returned " + std::to_string(d.v[0]) + " with " + std::to_string(N) + " entries idle longer than the tick");
+                int wrong = 0;
+                for (int k = 1; k <= N; k++)
+                {
+                    Op f   = mk1(OpK::FindUC, k);
+                    f.peek = 1;
+                    Result q = ad.apply(f);
+                    if (!q.v[0] || q.v[2] != 1)
+                        wrong++;
+                }
+                if (wrong)
+                    mbad(14, std::to_string(wrong) + " of " + std::to_string(N) + " entries do not have use count floor(2 * 0.5) after the aging point");
+            }
+            else if (id == 5 && ck == CK::lfuda)
+            {
+                // the same, but the aging point is an evicting insert
+                for (int k = 1; k <= N; k++)
+                    ap(ad, mkins(k, 7000 + k - 1));
+                for (int k = 1; k <= N; k++)
+                {
+                    Op f   = mk1(OpK::Find, k);
+                    f.peek = 0;
+                    ap(ad, f);
+                }
+                ap(ad, adv(5 * MS + 1));
+                ap(ad, mkins(N + 1, 7999));
+                int wrong = 0, present = 0;
+                for (int k = 1; k <= N; k++)
+                {
+                    Op f   = mk1(OpK::FindUC, k);
+                    f.peek = 1;
+                    Result q = ad.apply(f);
+                    if (q.v[0])
+                    {
+                        present++;
+                        if (q.v[2] != 1)
+                            wrong++;
+                    }
+                }
+                if (present != N - 1)
+                    mbad(3, std::to_string(N - present) + " entries left the full cache for one new key");
+                if (wrong)
+                    mbad(14, std::to_string(wrong) + " entries kept their use count although they were idle longer than the tick when a victim was chosen");
+                Result d = ap(ad, simple(OpK::DynAge));
+                if (d.v[0] != 0)
+                    mbad(14, "dynamically_age() right after the evicting insert still aged " + std::to_string(d.v[0]) + " entries");
+            }
+            else if (id == 6 && T.has_uc)
+            {
+                // many uses of one key
+                ap(ad, mkins(1, 8000));
+                int M = N;
+                for (int i = 0; i < M; i++)
+                {
+                    Op f   = mk1(OpK::Find, 1);
+                    f.peek = 0;
+                    ad.apply(f);
+                }
+                Op f   = mk1(OpK::FindUC, 1);
+                f.peek = 1;
+                Result q = ad.apply(f);
+                if (!q.v[0] || q.v[2] != M + 1)
+                    mbad(ck == CK::lfu ? 11 : 14, "use count is " + std::to_string(q.v[2]) + " after one insert and " + std::to_string(M) + " lookups");
+            }
+        }
+        if (g_vs.live != before.live || g_vs.bad_destroy != before.bad_destroy || g_vs.bad_use != before.bad_use)
+        {
+            mbad(8, "value instances not destroyed exactly once");
+            g_vs = before;
+        }
+        runs++;
+    }
+    void run_mass(int nmax)
+    {
+        static const int sizes[] = {1, 2, 3, 7, 33, 64, 65, 100, 127, 128, 129, 130, 257, 513, 700, 1025, 2049};
+        for (int N : sizes)
+            if (N <= nmax)
+                for (int id = 0; id <= 6; id++)
+                    mass_script(id, N);
+    }
+
     // replay of a recorded fill history: same calls, same reference, verify after every call
     int replay(const std::vector<Op>& ops)
     {
@@ -1528,6 +1807,7 @@ struct Fill
                         g_hash_mode = h;
                         script(sc);
                     }
+        run_mass(capmax >= 100 ? 2049 : 1025);
     }
 };
 
@@ -1571,6 +1851,20 @@ static int run_fill(Args& a)
 template<class A>
 static int run(Args& a, const std::vector<Op>& replay_ops)
 {
+    if (a.mode == "massreplay")
+    {
+        Fill<A> f(a);
+        f.t0 = wall();
+        if (replay_ops.empty())
+            return 3;
+        int id = (int)replay_ops[0].dt, N = replay_ops[0].wid[0];
+        printf("re-running mass script %d with %d entries on %s (thread_safe %d)\n", id, N, g_ckname, a.cfg.ts);
+        f.mass_script(id, N);
+        for (auto& v : f.viols)
+            printf("    DEVIATION [%s] %s\n", v.props.c_str(), v.clause.c_str());
+        printf(f.viols.empty() ? "RESULT: no deviation\n" : "RESULT: deviation reproduced\n");
+        return f.viols.empty() ? 0 : 1;
+    }
     if (a.mode == "fillreplay")
     {
         Fill<A> f(a);
@@ -1710,6 +2004,8 @@ int main(int argc, char** argv)
             }
             else if (!strncmp(line, "engine seqmc-product", 20))
                 a.mode = "preplay";
+            else if (!strncmp(line, "engine seqmc-mass", 17))
+                a.mode = "massreplay";
             else if (!strncmp(line, "engine seqmc-fill", 17))
                 a.mode = "fillreplay";
             else if (!strncmp(line, "props ", 6))
@@ -1745,7 +2041,7 @@ int main(int argc, char** argv)
         sigaction(SIGBUS, &sa, nullptr);
         sigaction(SIGABRT, &sa, nullptr);
         sigaction(SIGALRM, &sa, nullptr);
-        if (a.mode != "replay" && a.mode != "preplay" && a.mode != "fillreplay" && a.mode != "fill")
+        if (a.mode != "replay" && a.mode != "preplay" && a.mode != "fillreplay" && a.mode != "massreplay" && a.mode != "fill")
         {
             Engine<Ad<ck, cappuccino::thread_safe::no>>::containment()  = true;
             Engine<Ad<ck, cappuccino::thread_safe::yes>>::containment() = true;
